@@ -1,12 +1,309 @@
-//! C22 — monitor not built yet (stub so that the registry is complete).
+//! C22 — check selection runs exactly the requested checks.
+//!
+//! The real CLI (feature `verif`) appends one `module_run` event per executed check to the file named
+//! by `CWE_CHECKER_VERIF_EVENTS` (hook H2). The oracle compares that event list with the selection
+//! semantics of the statement, written down here independently of `main.rs`.
+
+use crate::c21::*;
 use crate::core::*;
+use crate::prng::{hash_str, mix, Rng};
+use serde_json::{json, Value};
+use std::collections::{BTreeMap, BTreeSet};
 
 pub fn info() -> CheckInfo {
     CheckInfo {
         id: "C22",
-        rule: "(monitor not built yet)",
-        assumptions: &[],
-        run: |_cfg| Report::new(),
-        replay: |_cfg, _case| Report::new(),
+        rule: "generated programs built to trigger several syntactic checks at once (CWE676 strcpy/memcpy/.., CWE467 size 8, CWE560 umask, CWE782 ioctl, CWE332 rand without srand, CWE243 chroot without chdir, CWE426 setuid+system, CWE367 access/open, CWE215 .debug sections) as ET_EXEC / PIE / kernel-module ELF, run through the real CLI with default selection, random --partial lists (shuffled, with repeated names and empty items), names that are not checks (incl. proper prefixes of check names) and --module-versions. Oracle on the module_run events of hook H2: partial => executed multiset == set of requested names, each once; default => every name of --module-versions except CWE78; kernel module => names of --module-versions that are in MODULES_LKM; every warning's owning check (CWE125/CWE787 -> CWE119, CWE415 -> CWE416) is in the executed set; every executed check the input is built to trigger printed >= 1 warning; a list containing a non-check either is rejected (non-zero exit) or executes nothing that was not listed; --module-versions lists each get_modules() name exactly once. non-trivial = a run with >= 1 event and >= 1 warning; distinct = hash of (P-Code JSON, argument list)",
+        assumptions: &[
+            "hook H2 (feature verif) reports every executed check before it runs; zero events over the whole run = inconclusive",
+            "on kernel modules --partial lists are restricted to the kernel-module subset (lkm_config.json has no entries for the other checks)",
+            "the triggers are purely syntactic patterns whose detection does not depend on analysis precision (documented 'how the check works' sections)",
+            "whether a list with an unknown name must be rejected is not demanded: rejected/accepted is recorded; only executing unlisted checks is a violation",
+        ],
+        run,
+        replay,
     }
+}
+
+/// Known-finding key: with `--partial Memory` (CWE476 not selected) the pointer inference prints warnings named CWE476.
+pub const KNOWN_MEMORY_CWE476_SELECTION: &str = "c22-memory-module-prints-cwe476-warnings";
+
+#[derive(Clone, Debug)]
+pub enum Expect {
+    /// exactly these names, each once
+    Exactly(BTreeSet<String>),
+    /// list contains a non-check: rejection is fine, otherwise nothing outside `listed` may run
+    Invalid(BTreeSet<String>),
+}
+
+fn lkm_names(env: &CliEnv) -> BTreeSet<String> {
+    env.names().into_iter().filter(|n| cwe_checker_lib::checkers::MODULES_LKM.contains(&n.as_str())).collect()
+}
+
+/// Judge one run's events and warnings.
+pub fn judge_selection(env: &CliEnv, out: &CliOut, expect: &Expect, built_to_trigger: &BTreeSet<String>, what: &str, rep: &mut Report, case: &dyn Fn() -> Value, size: u64) -> bool {
+    rep.eval();
+    if out.spawn_error.is_some() || out.timed_out {
+        rep.inconclusive(if out.timed_out { "watchdog" } else { "spawn-error" });
+        return false;
+    }
+    let mut counts: BTreeMap<String, usize> = BTreeMap::new();
+    for e in &out.events {
+        *counts.entry(e.clone()).or_insert(0) += 1;
+    }
+    let executed: BTreeSet<String> = counts.keys().cloned().collect();
+    match expect {
+        Expect::Invalid(listed) => {
+            if out.exit != Some(0) {
+                rep.obs("invalid-name:rejected");
+                if !executed.is_empty() {
+                    rep.obs("invalid-name:rejected-after-running-checks");
+                }
+                return false;
+            }
+            rep.obs("invalid-name:accepted");
+            let extra: Vec<&String> = executed.difference(listed).collect();
+            if !extra.is_empty() {
+                rep.violation(format!("{what}:executed-unlisted"), None, format!("the list contains a name that is not a check and the run executed checks that were not listed: {extra:?}; listed = {listed:?}, executed = {:?}", out.events), case(), size);
+            }
+            return false;
+        }
+        Expect::Exactly(want) => {
+            let missing: Vec<&String> = want.difference(&executed).collect();
+            let extra: Vec<&String> = executed.difference(want).collect();
+            // a run that died cannot be blamed for checks it did not reach, but what it did execute is judged
+            if out.exit == Some(0) && !missing.is_empty() {
+                rep.violation(format!("{what}:not-executed"), None, format!("expected executed checks {want:?}; not executed: {missing:?}; events = {:?}", out.events), case(), size);
+            }
+            if !extra.is_empty() {
+                rep.violation(format!("{what}:executed-unrequested"), None, format!("expected executed checks {want:?}; additionally executed: {extra:?}; events = {:?}", out.events), case(), size);
+            }
+            if let Some((n, c)) = counts.iter().find(|(_, c)| **c > 1) {
+                rep.violation(format!("{what}:executed-twice"), None, format!("check {n} was executed {c} times; events = {:?}", out.events), case(), size);
+            }
+            if out.exit != Some(0) {
+                rep.inconclusive(&format!("run-failed:{what}:exit-{:?}", out.exit));
+                return false;
+            }
+        }
+    }
+    // warnings only from executed checks, and triggers honoured
+    let Ok(Value::Array(ws)) = serde_json::from_slice::<Value>(&out.stdout) else {
+        rep.inconclusive("stdout-not-a-json-array");
+        return false;
+    };
+    let mut warned: BTreeSet<String> = BTreeSet::new();
+    for w in &ws {
+        let Some(n) = w["name"].as_str() else { continue };
+        let owner = owner_check(n).to_string();
+        if !executed.contains(&owner) {
+            if executed.contains("Memory") && is_memory_null_deref_warning(w) {
+                rep.violation("warning-of-unselected-check:memory-module-cwe476", Some(KNOWN_MEMORY_CWE476_SELECTION), format!("check CWE476 was not executed (executed: {executed:?}) but a warning named CWE476 was printed by module Memory: {}", w.to_string().chars().take(240).collect::<String>()), case(), size);
+            } else {
+                rep.violation(format!("{what}:warning-of-unselected-check"), None, format!("warning named {n} printed although check {owner} was not executed (executed: {executed:?}): {}", w.to_string().chars().take(240).collect::<String>()), case(), size);
+            }
+        }
+        warned.insert(owner);
+    }
+    for t in built_to_trigger {
+        if executed.contains(t) {
+            if warned.contains(t) {
+                rep.obs(&format!("trigger-honoured:{t}"));
+            } else {
+                rep.violation(format!("{what}:no-warning-from:{t}"), None, format!("the input is built to trigger {t} and {t} was executed, but no {t} warning was printed ({} warnings of {:?})", ws.len(), warned), case(), size);
+            }
+        }
+    }
+    !out.events.is_empty() && !ws.is_empty()
+}
+
+fn gen_opts(rng: &mut Rng) -> GenOpts {
+    let kind = match rng.below(10) {
+        0..=3 => ElfKind::Exec,
+        4..=6 => ElfKind::Pie,
+        _ => ElfKind::Lkm,
+    };
+    GenOpts { kind, order_bias: false, trigger_bias: true, debug_sections: rng.bool() }
+}
+
+fn random_subset(rng: &mut Rng, pool: &[String]) -> Vec<String> {
+    let p = *rng.pick(&[2u64, 3, 5]);
+    let mut v: Vec<String> = pool.iter().filter(|_| rng.chance(1, p)).cloned().collect();
+    if v.is_empty() {
+        v.push(rng.pick(pool).clone());
+    }
+    rng.shuffle(&mut v);
+    v
+}
+
+fn check_input(env: &CliEnv, inp: &Input, rng: &mut Rng, rep: &mut Report) {
+    let files = match write_input(&inp.pcode, &inp.elf) {
+        Ok(f) => f,
+        Err(e) => {
+            rep.inconclusive(&format!("harness:{e}"));
+            return;
+        }
+    };
+    let size = inp.pcode.len() as u64;
+    let all: BTreeSet<String> = env.names().into_iter().collect();
+    let lkm = inp.kind == ElfKind::Lkm;
+    let pool: Vec<String> = if lkm { lkm_names(env).into_iter().collect() } else { env.names() };
+    let mut runs: Vec<(String, Vec<String>, Expect)> = Vec::new();
+    // default selection
+    let default_expect: BTreeSet<String> = if lkm { lkm_names(env) } else { all.iter().filter(|n| n.as_str() != "CWE78").cloned().collect() };
+    runs.push((if lkm { "default-lkm".into() } else { "default".into() }, vec![], Expect::Exactly(default_expect)));
+    // two partial lists
+    for _ in 0..2 {
+        let mut list = random_subset(rng, &pool);
+        let want: BTreeSet<String> = list.iter().cloned().collect();
+        if rng.chance(1, 4) {
+            let dup = rng.pick(&list).clone();
+            list.push(dup);
+        }
+        let mut arg = list.join(",");
+        if rng.chance(1, 6) {
+            arg.push(',');
+        }
+        runs.push((if lkm { "partial-lkm".into() } else { "partial".into() }, vec!["--partial".into(), arg], Expect::Exactly(want)));
+    }
+    // a list with a non-check (sometimes)
+    if rng.chance(1, 3) {
+        let mut list = random_subset(rng, &pool);
+        let listed: BTreeSet<String> = list.iter().cloned().collect();
+        let victim = rng.pick(&pool).clone();
+        let bogus = match rng.below(4) {
+            0 => victim[..victim.len() - 1].to_string(),
+            1 => format!("{victim}0"),
+            2 => victim.to_lowercase(),
+            _ => "CWE457".to_string(),
+        };
+        if !all.contains(&bogus) && !bogus.is_empty() {
+            let at = rng.usize_below(list.len() + 1);
+            list.insert(at, bogus);
+            runs.push(("invalid".into(), vec!["--partial".into(), list.join(",")], Expect::Invalid(listed)));
+        }
+    }
+    for (what, args, expect) in runs {
+        let out = run_cli(env, &files, &args, &RunOpts::default());
+        let case = || {
+            let mut c = input_case(inp);
+            c["args"] = json!(args);
+            c["built_to_trigger"] = json!(inp.expect);
+            c
+        };
+        rep.obs_n("events-seen", out.events.len() as u64);
+        rep.obs(&format!("run:{what}"));
+        if judge_selection(env, &out, &expect, &inp.expect, &what, rep, &case, size) {
+            rep.nontrivial(mix(hash_str(&inp.pcode), hash_str(&args.join(" "))));
+            if rep.wants_sample() && what.starts_with("partial") {
+                rep.sample(json!({"kind": format!("{:?}", inp.kind), "args": args, "events": out.events, "built_to_trigger": inp.expect, "extern_symbols": inp.extern_names,
+                    "warning_names": serde_json::from_slice::<Value>(&out.stdout).ok().and_then(|v| v.as_array().map(|a| a.iter().filter_map(|w| w["name"].as_str().map(String::from)).collect::<BTreeSet<_>>()))}));
+            }
+        }
+    }
+    for t in &inp.expect {
+        rep.obs(&format!("built-to-trigger:{t}"));
+    }
+}
+
+/// `--module-versions` lists each name returned by get_modules() exactly once.
+fn check_module_versions(env: &CliEnv, rep: &mut Report) {
+    rep.eval();
+    let lib: Vec<String> = cwe_checker_lib::get_modules().iter().map(|m| m.name.to_string()).collect();
+    let case = || json!({"kind": "module-versions"});
+    for n in &lib {
+        let c = env.modules.iter().filter(|m| &m.0 == n).count();
+        if c != 1 {
+            rep.violation("module-versions:count", None, format!("get_modules() names {n} but --module-versions lists it {c} times; output = {:?}", env.module_versions_raw), case(), 1);
+        }
+    }
+    for m in &env.modules {
+        if !lib.contains(&m.0) {
+            rep.violation("module-versions:unknown", None, format!("--module-versions lists {} which get_modules() does not return", m.0), case(), 1);
+        }
+    }
+    let lib_set: BTreeSet<&String> = lib.iter().collect();
+    if lib_set.len() != lib.len() {
+        rep.violation("module-versions:duplicate-in-get_modules", None, format!("get_modules() returns a name twice: {lib:?}"), case(), 1);
+    }
+    rep.obs("module-versions-checked");
+}
+
+fn run(cfg: &Cfg) -> Report {
+    let env = match cli_env(cfg) {
+        Ok(e) => e,
+        Err(reason) => {
+            let mut rep = Report::new();
+            rep.inconclusive(&reason);
+            return rep;
+        }
+    };
+    let shards = cfg.tier.pick(128usize, 1024usize);
+    let per_shard = cfg.tier.pick(8usize, 30usize);
+    let mut rep = par_shards(cfg, "c22", shards, |idx, rng, rep| {
+        if idx == 0 {
+            check_module_versions(&env, rep);
+        }
+        for _ in 0..per_shard {
+            if cfg.elapsed_s() > deadline_s(cfg) {
+                rep.obs("skipped-after-deadline");
+                continue;
+            }
+            let opts = gen_opts(rng);
+            let inp = gen_input(rng, &opts);
+            check_input(&env, &inp, rng, rep);
+        }
+    });
+    if rep.observed.get("events-seen").copied().unwrap_or(0) == 0 {
+        rep.inconclusive("no-module_run-events-observed(hook-not-reached)");
+        rep.nontrivial.clear();
+    }
+    if rep.observed.contains_key("skipped-after-deadline") {
+        rep.note(format!("machine too slow for the full workload: {} inputs skipped after the deadline", rep.observed["skipped-after-deadline"]));
+    }
+    rep.extra.insert("module_versions".into(), json!(env.modules));
+    rep
+}
+
+fn replay(cfg: &Cfg, case: &Value) -> Report {
+    let mut rep = Report::new();
+    let env = match cli_env(cfg) {
+        Ok(e) => e,
+        Err(reason) => {
+            rep.inconclusive(&reason);
+            return rep;
+        }
+    };
+    if case["kind"] == json!("module-versions") {
+        check_module_versions(&env, &mut rep);
+        return rep;
+    }
+    let Some((pcode, elf)) = input_from_case(case) else {
+        rep.note("replay case has no input");
+        return rep;
+    };
+    let Ok(files) = write_input(&pcode, &elf) else {
+        rep.note("cannot write input files");
+        return rep;
+    };
+    let args: Vec<String> = case["args"].as_array().map(|a| a.iter().filter_map(|x| x.as_str().map(String::from)).collect()).unwrap_or_default();
+    let built: BTreeSet<String> = case["built_to_trigger"].as_array().map(|a| a.iter().filter_map(|x| x.as_str().map(String::from)).collect()).unwrap_or_default();
+    let lkm = case["kind"] == json!("Lkm");
+    let all: BTreeSet<String> = env.names().into_iter().collect();
+    let expect = if args.len() >= 2 {
+        let listed: Vec<String> = args[1].split(',').filter(|s| !s.is_empty()).map(String::from).collect();
+        if listed.iter().all(|n| all.contains(n)) {
+            Expect::Exactly(listed.into_iter().collect())
+        } else {
+            Expect::Invalid(listed.into_iter().filter(|n| all.contains(n)).collect())
+        }
+    } else if lkm {
+        Expect::Exactly(lkm_names(&env))
+    } else {
+        Expect::Exactly(all.iter().filter(|n| n.as_str() != "CWE78").cloned().collect())
+    };
+    let out = run_cli(&env, &files, &args, &RunOpts::default());
+    let c = || case.clone();
+    judge_selection(&env, &out, &expect, &built, "replay", &mut rep, &c, pcode.len() as u64);
+    rep
 }
